@@ -140,6 +140,7 @@ pub fn gen_scenario(r: &mut Rng, seed: u64) -> Scenario {
         let mut announced = peer_id(k);
         let binary_id = r.chance(1, 3);
         if binary_id { for b in announced[8..].iter_mut() { *b = 0x80 + r.below(0x40) as u8; } }
+        else if r.chance(1, 8) { announced = [0u8; 20]; } // an id of twenty NUL bytes is an id like any other
         let kind = match r.below(6) { 0 => HsKind::Valid, 1 => HsKind::WrongHash, 2 => if incoming { HsKind::WrongHash } else { HsKind::WrongId }, 3 => HsKind::WrongProto, 4 => HsKind::ShortProto, _ => HsKind::WrongHash };
         // where the handshake sits in an otherwise plausible history
         let position = r.below(5); // 0 first, 1 after some messages, 2 absent, 3 valid then invalid, 4 invalid then valid
